@@ -634,11 +634,16 @@ def rule_roundtrip(ctx) -> None:
         ("CmdUnlockSNVS", [{"features": 3}]),
         ("CmdInstallKey", [{"flags": E(CMD, "EnumInsKey").ABS, "cert_fmt": E(CMD, "EnumCertFormat").X509, "hash_alg": alg.SHA256, "src_index": 2, "tgt_index": 3, "location": 0x1000}]),
         ("CmdWriteData", [{"numbytes": 4, "ops": E(CMD, "EnumWriteOps").SET_BITMASK, "data": ((0x1000, 5), (0x2000, 7))}, {"numbytes": 2, "ops": E(CMD, "EnumWriteOps").WRITE_VALUE, "data": ((0x30, 0xFFFF),)}]),
+        ("CmdAuthData", [{"flags": E(CMD, "EnumAuthDat").CLR, "key_index": 2, "sig_format": E(CMD, "EnumCertFormat").CMS, "engine": eng.CAAM, "engine_cfg": 1, "location": 0x800,
+                          "__setup1": "obj.append(0x1000, 0x200); obj.append(0x3000, 0x40)"},
+                         {"flags": E(CMD, "EnumAuthDat").ABS, "key_index": 0, "sig_format": E(CMD, "EnumCertFormat").CMS, "engine": eng.ANY, "engine_cfg": 0, "location": 0x20,
+                          "__setup1": "obj.append(0x877FF400, 0x10)"},
+                         {"flags": E(CMD, "EnumAuthDat").CLR, "key_index": 1, "sig_format": E(CMD, "EnumCertFormat").CMS, "engine": eng.ANY, "engine_cfg": 0, "location": 0x40}]),
         ("CmdCheckData", [{"numbytes": 2, "ops": E(CMD, "EnumCheckOps").ANY_CLEAR, "address": 0x11223344, "mask": 0xFF00, "count": None},
                           {"numbytes": 4, "ops": E(CMD, "EnumCheckOps").ALL_SET, "address": 0x40, "mask": 1, "count": 5},
                           {"numbytes": 1, "ops": E(CMD, "EnumCheckOps").ALL_CLEAR, "address": 0x44, "mask": 0x80, "count": 0}]),  # a count of 0 is a count
     ]
-    roundtrip.check_classes(ctx, "C07.cmd-roundtrip", CMD, cmds, hx, floor=8)
+    roundtrip.check_classes(ctx, "C07.cmd-roundtrip", CMD, cmds, hx, floor=9)
 
     def leaves(c: ast.Call, ev):
         if norm(c.func) == "get_ecc_curve" and len(c.args) == 1:
